@@ -326,6 +326,10 @@ def run_case(c):
             out["history"] = history(c["history"]["specs"], c["history"]["steps"])
         if c.get("details", True):
             out["details"] = details(s1, s2, int(c.get("details_k", 12)))
+            # the property clauses also for calls WITH details: swapped order and common rigid motion, fresh bodies each
+            for key, (xa, xb, gg) in (("details_swap", (s2, s1, None)), ("details_moved", (s1, s2, g))):
+                it, w12, w21, _det = hc.contact_forces(make_body(xa, gg), make_body(xb, gg), return_details=True)
+                out[key] = dict(inter=bool(it), w12=L(w12), w21=L(w21))
         # internals on fresh bodies (must reproduce base bit for bit)
         out["internals"] = internals(make_body(s1), make_body(s2), max_rows)
         out["swap"] = cf(make_body(s2), make_body(s1))
